@@ -683,13 +683,39 @@ func cmdCheck(args []string) {
 		boundedRes = append(boundedRes, br)
 		if br.Status != "ok" {
 			os.MkdirAll(replayDir, 0o755)
-			rf := filepath.Join(replayDir, "bounded."+bn+".txt")
-			os.WriteFile(rf, []byte(fmt.Sprintf("property: %s\nbounded stand-in: %s\nbound: %s\ncases run: %d\nfailing inputs (run on the real functions):\n%s\n", cfg.ID, bn, br.Bound, br.Cases, strings.Join(br.Fails, "\n"))), 0o644)
-			suffix := ""
-			if br.Status == "error" {
-				suffix = " no-failing-input-found"
+			cats := br.Cats
+			if br.Status == "error" || len(cats) == 0 {
+				cats = map[string][]string{"": br.Fails}
 			}
-			violations = append(violations, fmt.Sprintf("VIOLATION property=%s replay=%s obligation=bounded.%s (%s)%s", cfg.ID, rf, bn, br.Status, suffix))
+			var cnames []string
+			for c := range cats {
+				cnames = append(cnames, c)
+			}
+			sort.Strings(cnames)
+			for _, c := range cnames {
+				name := "bounded." + bn
+				if c != "" {
+					name += "." + c
+				}
+				// a recorded finding of this stand-in, identified by the kind of input that fails
+				isKnown := false
+				for _, k := range findings {
+					if !k.Fixed && k.Prop == cfg.ID && k.Func == "bounded."+bn && k.Obligation == c && c != "" && br.Status == "failed" {
+						knownLines = append(knownLines, fmt.Sprintf("KNOWN-FINDING: property=%s %s %s -- %s", cfg.ID, k.Func, c, k.What))
+						isKnown = true
+					}
+				}
+				if isKnown {
+					continue
+				}
+				rf := filepath.Join(replayDir, sanitize(name)+".txt")
+				os.WriteFile(rf, []byte(fmt.Sprintf("property: %s\nbounded stand-in: %s\nkind: %s\nbound: %s\ncases run: %d\nfailing inputs (run on the real functions):\n%s\n", cfg.ID, bn, c, br.Bound, br.Cases, strings.Join(cats[c], "\n"))), 0o644)
+				suffix := ""
+				if br.Status == "error" {
+					suffix = " no-failing-input-found"
+				}
+				violations = append(violations, fmt.Sprintf("VIOLATION property=%s replay=%s obligation=%s (%s)%s", cfg.ID, rf, name, br.Status, suffix))
+			}
 		}
 	}
 	// mathematical lemmas checked by Lean/Mathlib (thorough tier): the delta rule of the ghost sums and the
